@@ -129,6 +129,14 @@ def check(run, prog, tier):
     run.rule("C08-P", "a step of the step-by-step mode continues from a value in the rotating frame: a value converted to the "
                       "laboratory frame in between is brought back (or the step is refused)", minimum=1)
     rule_P(run, prog, cls)
+    run.rule("C08-Q", "applied to any state the superoperator reproduces direct propagation of that state under the same generator: the operator components a tensor transforms in place when the basis changes are its own arrays - "
+                      "an array of the system-bath interaction (or of any argument) kept without a copy would be transformed once per "
+                      "object built from it (stored-input analysis shared with C15-E3, restricted to the tensors that have an "
+                      "operator form)", minimum=2)
+    from . import c15 as _c15
+    from ..report import RuleProxy as _RP
+    _opf = ("RedfieldRelaxationTensor", "TDRedfieldRelaxationTensor", "LindbladForm", "ElectronicLindbladForm")
+    _c15.stored_inputs_intact(_RP(run, "C08-Q", keep=lambda c, k: c.split(".")[0] in _opf), "C08-Q", prog, _c15.TENSORS)
 
 
 def rule_O(run, prog, cls):
